@@ -60,6 +60,18 @@ def model_list():
     k5 = {'name': 'K', 'params': [('x', 'int'), ('_tok', 'any', None), ('_i', ('cls', 'In'), None)]}
     out.append(('underscore-param', {'classes': base + [k5], 'root': ('cls', 'K')}))
     out.append(('underscore-param', {'classes': base + [dict(k5, extra=True)], 'root': ('list', ('cls', 'K'))}))
+    # underscored optional parameters next to _yatiml_extra, no savorize: a dashed key is an extra attribute (plain data)
+    k6 = {'name': 'K', 'params': [('x', 'int'), ('a_b', 'any', None), ('i_n', ('cls', 'In'), None)], 'extra': True}
+    out.append(('dashed-extra', {'classes': base + [k6], 'root': ('cls', 'K')}))
+    k7 = {'name': 'K', 'params': [('x', 'int'), ('a_b', 'any', None), ('i_n', ('cls', 'In'), None)]}
+    out.append(('dashed-extra', {'classes': base + [k7], 'root': ('list', ('cls', 'K'))}))
+    # keyword-only parameters are not constructor parameters for yatiml: their keys are unknown / extra attributes
+    kwdocs = [M([(S('str', 'x'), S('int', '1')), (S('str', 'k'), v)]) for v in (S('int', '2'), M([(S('str', 'p'), S('int', '1'))]))]
+    kwdocs += [M([(S('str', 'x'), S('int', '1')), (S('str', 'u'), v)]) for v in (S('str', 'a'), M([(S('str', 'p'), S('int', '1'))]),
+                                                                              Q([M([(S('str', 'p'), S('int', '1'))])]))]
+    k8 = {'name': 'K', 'params': [('x', 'int')], 'kwonly': [('k', 'int'), ('u', 'untyped')], 'docs': kwdocs}
+    out.append(('kwonly', {'classes': base + [dict(k8, extra=True)], 'root': ('cls', 'K')}))
+    out.append(('kwonly', {'classes': base + [k8], 'root': ('cls', 'K')}))
     k4 = {'name': 'K', 'params': [('i', ('cls', 'In')), ('s', 'str', 'd')]}
     out.append(('typed-only', {'classes': base + [k4], 'root': ('cls', 'K')}))
     return out
@@ -164,6 +176,11 @@ def below_any(spec, tree, path):
                     ps = {p[0]: p for p in c.get('params', [])}
                     if key[0] == 's' and key[2] in ps:
                         t = T(ps[key[2]][1])
+                    elif key[0] == 's' and key[2].replace('-', '_') in ps:
+                        # a dashed key stands in for the underscored parameter while recognising (so its value is
+                        # type-checked as that parameter) and is an extra attribute when constructing: the position
+                        # is neither purely typed nor purely extra
+                        return None
                     elif c.get('extra'):
                         return True
                     else:
@@ -308,6 +325,11 @@ def base_docs(spec, case, tier):
             if below_any(spec, t, path) is True and node[0] == 's' and not docs.is_key_path(path):
                 out.append(docs.replace(t, path, deep))
                 break
+    # every key with an underscore also written with dashes (one key per document)
+    for t in trees[:lim]:
+        for path, node in docs.positions(t):
+            if docs.is_key_path(path) and node[0] == 's' and '_' in node[2].strip('_'):
+                out.append(docs.replace(t, path, (node[0], node[1], node[2][0] + node[2][1:].replace('_', '-'))))
     for t in trees[:2]:
         if t[0] == 'm':
             out.append(('m', t[1], t[2] + ((S('str', '_yatiml_extra'), M([(S('str', 'w'), S('int', '1'))])),)))
@@ -323,7 +345,7 @@ def base_docs(spec, case, tier):
 
 def units(tier):
     ms = model_list()
-    return [(i, j) for i in range(len(ms)) for j in range(16 if tier == 'quick' else 24)]
+    return [(i, j) for i in range(len(ms)) for j in range(28 if tier == 'quick' else 44)]
 
 
 _CACHE = {}
